@@ -186,6 +186,7 @@ def oracle_layout(ops, io, ctx):
     hs, hk = SHAPES[h]; ts, tk = SHAPES[t]
     cls = CTOR_CLASS.get(c)
     if st == 3: return 'constructor left %d live allocations instead of one block' % asz
+    if st == 5: return 'something was written past the end of the block (%d bytes requested): it is too short for its contents' % asz
     if st == 1 or st == 2 and asz == 0: return None
     # exact content that must fit
     if cls in (0, 1, 4, 5): need = ts
@@ -322,7 +323,7 @@ def mech_prep(cases, cfg, profile):
 
 BAD_EVENTS = {7: 'block released with a layout different from the one it was allocated with',
               8: 'release of a pointer that is not a live allocation', 9: 'destructor ran on a value that is not live (double drop or garbage)',
-              11: 'read of a value that is not live (use after free / uninitialised)'}
+              11: 'read of a value that is not live (use after free / uninitialised)', 13: 'write past the end of a block (the block is too short for its contents)'}
 
 def oracle_mech(ops, io, ctx):
     """C01/C04 stated directly on what the instrumented implementation did (independent of the model)."""
@@ -872,7 +873,7 @@ def gen_ctor(tier, rng):
     return cases
 
 BAD_CT = {777777: 'destructor ran on a value that is not live (double drop or garbage)', 888888: 'read of a value that is not live (uninitialised or freed)',
-          666666: 'release of a block that is not a live allocation / with the wrong layout'}
+          666666: 'release of a block that is not a live allocation / with the wrong layout', 555555: 'write past the end of a block (the block is too short for what was written into it)'}
 def ct_split(o):
     parts = [[]]
     for x in o:
@@ -1312,6 +1313,11 @@ DPANIC_STREAM = dict(stream='ctor', label='ctor-scenarios', gen=gen_dpanic, orac
 PROPS['C01']['streams'] = PROPS['C01']['streams'] + [DPANIC_STREAM]
 PROPS['C15']['streams'] = PROPS['C15']['streams'] + [DPANIC_STREAM]
 PROPS['C06']['streams'] = PROPS['C06']['streams'] + [DPANIC_STREAM]
+# C05 "the block is large enough for what is written into it" and C10 "the recorded length is the slice length" also under
+# iterators that misreport their length: the constructor stream with red zones behind every block
+CTOR_STREAM_C05 = dict(CTOR_STREAM); CTOR_STREAM_C05['label'] = 'ctor-lying-iterators'
+PROPS['C05']['streams'] = PROPS['C05']['streams'] + [CTOR_STREAM_C05]
+PROPS['C10']['streams'] = PROPS['C10']['streams'] + [CTOR_STREAM_C05]
 EFFECTS_STREAM = dict(stream='cmp', label='cmp-effects', gen=gen_effects, oracle=oracle_cmp, nontrivial=lambda ops, io: len(ops[0]) == 4 and ops[0][0] == 9 and ops[0][3] == 1,
                       rule='comparison / hash / format through every handle kind (Arc, OffsetArc, ArcBorrow, ArcUnion, ThinArc, fat header-slice Arc) x {==, !=, partial_cmp, <, cmp, hash, Debug, Display} x payload impl answers / panics: panic propagated, every count read before, during (from inside the operation where possible) and after is unchanged, no dead access, every value destroyed once afterwards; non-trivial = the impl panicked',
                       cfgs=dict(quick=[('cfg_default', 'debug'), ('cfg_default', 'release')], thorough=[('cfg_default', 'debug'), ('cfg_default', 'release'), ('cfg_all', 'release')]))
